@@ -167,6 +167,76 @@ def job_timezone(ctx):
                    scenarios=lambda i: {"timezone ctor": True}, bounds={"hours": [-101, 101], "minutes": [-62, 62]})
 
 
+TEMPLATES = {
+    "timepoint": ["2000-01-01T00:00:00Z", "20000101T000000+0530", "2000-366T23:59", "2000-W01-1T12", "+002000-12-31T24:00:00-03:30",
+                  "2000-02", "T06+00:00", "---29", "-W-5T10"],
+    "duration": ["P1Y2M3DT4H5M6S", "PT5,5H", "P2W", "-P1D", "P0001-02-03T04:05:06", "PT1H"],
+    "recurrence": ["R3/2000-01-01T00Z/P1D", "R/P1M/2000-03-31T00Z", "R2/2000-01-01T00Z/2000-01-02T00Z"],
+}
+
+
+def _parser(ctx, kind, cfg):
+    P = ctx.parsers
+    if kind == "timepoint":
+        return P.TimePointParser(**cfg)
+    if kind == "duration":
+        return P.DurationParser()
+    return P.TimeRecurrenceParser(P.TimePointParser(**cfg), P.DurationParser())
+
+
+def job_garbage(ctx, kind, template, npos, cfg=None, lo=32, hi=126):
+    """arbitrary text, bounded: `template` with `npos` consecutive positions
+    (every placement) replaced by symbolic ASCII code points (template None: a
+    fully symbolic string of length npos).  Outcome must be an object or an
+    exception derived from ValueError; termination = exploration finishes."""
+    from symx import strs
+    from symx.strs import SymStr
+    data = ctx.data
+    C.set_mode(data, "gregorian")
+    install_range_summary(data, "gregorian")
+    from .c03 import install_weeks_summary
+    install_weeks_summary(data, "gregorian")
+    cfg = dict(cfg or {"assumed_time_zone": (0, 0)})
+    parser = _parser(ctx, kind, cfg)
+    base = list(template) if template is not None else []
+    starts = list(range(0, len(base) - npos + 1)) if template is not None else [0]
+
+    def make(e):
+        return {"pos": e.var("pos", 0, len(starts) - 1), "ch": [e.var("c%d" % k, lo, hi) for k in range(npos)]}
+
+    def body(i):
+        k = core.realise(i["pos"])
+        st = starts[k]
+        els = (base[:st] + list(i["ch"]) + base[st + npos:]) if template is not None else list(i["ch"])
+        s = SymStr.make(els)
+        strs.VALIDITY_ONLY_FLOAT[0] = True
+        try:
+            return parser.parse(s)
+        finally:
+            strs.VALIDITY_ONLY_FLOAT[0] = False
+
+    def post(i, out):
+        if out[0] == "exc":
+            return [("any refusal is an error derived from ValueError", isinstance(out[1], ValueError))]
+        if out[0] != "ok":
+            return [("decided", False)]
+        want = {"timepoint": data.TimePoint, "duration": data.Duration, "recurrence": data.TimeRecurrence}[kind]
+        return [("otherwise a %s object is returned" % want.__name__, isinstance(out[1], want))]
+
+    def case_of(v, i):
+        st = starts[v["pos"]]
+        chars = "".join(chr(v["c%d" % k]) for k in range(npos))
+        txt = ("".join(base[:st]) + chars + "".join(base[st + npos:])) if template is not None else chars
+        return {"check": "garbage", "mode": "gregorian", "kind": kind, "cfg": cfg, "text": txt}
+
+    return sym_run("garbage[%s,%r,%d,%s]" % (kind, template, npos, ",".join(sorted(k[:6] for k in cfg if k != "assumed_time_zone"))),
+                   make, None, body, post, case_of,
+                   scenarios=lambda i: {"garbage:" + kind: True, "mutated template": template is not None,
+                                        "fully symbolic text": template is None},
+                   bounds={"parser": kind, "template": template, "symbolic positions": npos, "code points": [lo, hi], "config": cfg},
+                   sample_every=200)
+
+
 # ---------------------------------------------------------------------------
 def py_valid_kw(mode, form, kw):
     P = R.PyOps
@@ -191,6 +261,21 @@ def replay(case, M_):
     mode = case["mode"]
     data.CALENDAR.set_mode(mode)
     try:
+        if case["check"] == "garbage":
+            P = M_.parsers
+            cfg = dict(case["cfg"])
+            if cfg.get("assumed_time_zone") is not None:
+                cfg["assumed_time_zone"] = tuple(cfg["assumed_time_zone"])
+            kind = case["kind"]
+            parser = (P.TimePointParser(**cfg) if kind == "timepoint" else P.DurationParser() if kind == "duration"
+                      else P.TimeRecurrenceParser(P.TimePointParser(**cfg), P.DurationParser()))
+            try:
+                r = parser.parse(case["text"])
+                return False, "parse(%r) = %r" % (case["text"], r)
+            except ValueError as exc:
+                return False, "parse(%r) refused with %s" % (case["text"], type(exc).__name__)
+            except Exception as exc:
+                return True, "%s parser on %r raised %s: %s (not derived from ValueError)" % (kind, case["text"], type(exc).__name__, exc)
         if case["check"] == "tz":
             exp = bool(R.valid_tz(R.PyOps, case["h"], case["m"]))
             try:
@@ -234,6 +319,20 @@ def jobs(tier):
             J.append(("job_fields", dict(mode=mode, form="week", tkind="h", zkind="m", K=(4, 5), ranges={"W": (52, 54)})))
             J.append(("job_fields", dict(mode=mode, form="year-only", tkind="hms", zkind="none", K=(4, 5))))
             J.append(("job_fields", dict(mode=mode, form="year-only", tkind="none", zkind="hm", K=(4, 5))))
+    # text clause, bounded: fully symbolic ASCII strings and mutations of valid expressions
+    TR = {"assumed_time_zone": (0, 0), "allow_truncated": True}
+    for kind in ("timepoint", "duration", "recurrence"):
+        top = {"timepoint": 6, "duration": 7, "recurrence": 7}[kind] + (1 if th else 0)
+        for n in range(1, top + 1):
+            J.append(("job_garbage", dict(kind=kind, template=None, npos=n)))
+            if kind == "timepoint":
+                J.append(("job_garbage", dict(kind=kind, template=None, npos=n, cfg=TR)))
+        for t in TEMPLATES[kind]:
+            cfg = TR if (kind == "timepoint" and t[0] in "T-") else None
+            for w in ((1, 2, 3, 4) if th else (1, 2, 3)):
+                if kind == "recurrence" and t.count("Z") == 2 and w > 1 and not th:
+                    continue        # start/second-point template: each path subtracts two symbolic points (slow)
+                J.append(("job_garbage", dict(kind=kind, template=t, npos=w, cfg=cfg)))
     return J
 
 
@@ -242,15 +341,20 @@ INFO = {
                    "the legal ranges (month -2..15, day -2..34, day-of-year -2..370, week -2..56, weekday -2..10, hour -2..27, "
                    "minute/second -2..62, zone hour -101..101, zone minute -62..62), every year, each date notation, partial "
                    "notations and conflicting notations: accepted <=> oracle-valid in the active calendar mode; a refusal is a "
-                   "ValueError subclass; an accepted object carries exactly the given values.",
+                   "ValueError subclass; an accepted object carries exactly the given values. Text clause (bounded): the three parsers on strings "
+                   "with fully symbolic printable-ASCII characters (strings up to 6-7 characters, and every 1-3 character mutation window of 18 valid "
+                   "expressions) either return an object or raise an error derived from ValueError, and the exploration terminates.",
     "bounds": {"quick": {"years": "-1 000 000..999 999 (date-only jobs); 1600..2399 for the jobs that add time and zone fields",
                          "modes": "date notations in all 4 modes; conflicts and time/zone combinations in gregorian"},
                "thorough": {"modes": "everything in all 4 modes"}},
-    "outside": ["the text clause -- arbitrary strings through the three parsers -- is not decided here: CPython's C regex engine is not "
-                "executed symbolically (see DESIGN.md, string layer); only field tuples through the constructor are claimed",
+    "outside": ["arbitrary text beyond the stated bound: only fully symbolic printable-ASCII strings of length <= 6 (time points, also with truncation enabled) / <= 7 (durations, recurrences) and 18 valid "
+                "expressions with every window of 1-3 consecutive characters replaced by symbolic printable-ASCII characters are decided; "
+                "non-ASCII characters (e.g. non-ASCII digits) and longer splices are outside",
+                "the numeric value of floats converted from garbage text (only whether float() accepts the text is decided)",
                 "non-integer field values, decimal fields", "truncated points"],
     "assumptions": ["get_days_in_year_range runs as its closed form (C03)"],
 }
-REQUIRED_SCENARIOS = {"all": ["month 0", "month 13", "30 feb", "29 feb", "31st", "day 366", "day 0", "week 53", "weekday 8",
+NEEDS_STRING_VALIDATION = True
+REQUIRED_SCENARIOS = {"all": ["garbage:timepoint", "garbage:duration", "garbage:recurrence", "mutated template", "fully symbolic text", "month 0", "month 13", "30 feb", "29 feb", "31st", "day 366", "day 0", "week 53", "weekday 8",
                               "24:00:00", "24:01", "second 60", "zone parts of conflicting sign", "zone -00:30", "year 0",
                               "timezone ctor"]}
